@@ -35,7 +35,7 @@ def chunks(idx, size=CHUNK):
     return [c for c in out if c]
 
 GROUPS = {"passive": "CfgsPassive", "active": "CfgsActive"}
-HOLDS = "{0, 3, 9}"
+HOLDS = "{0, 3, 6, 9}"
 GEN_TICKS = "{1, 2, 3, 5, 9, 30, 240}"
 
 
